@@ -96,6 +96,18 @@ func VerifC20_KRoot() {
 	ctxs := []string{"", "/a/x", "b/x", "x", "/a/b/x", "../x"}
 	ctxLoc := ctxs[vndChoice("ctx", len(ctxs))]
 	lib := &RelativeFileSystemLibrary{RootDir: root}
+	if vndBool("prior") {
+		// the SAME library value has served a load before, under another root and another link
+		// topology (a deploy swap re-targets the symlink the root passes through): nothing of that
+		// earlier resolution may be reused.
+		lib.RootDir = "/a"
+		verifLinks = []verifLink{{"/a", "/a", false}, {"/a/b", "/a/b", false}}
+		_, _, d0, e0 := lib.LoadSource(NewSourceContext("n", ""), "/a/b")
+		vAssert(e0 == nil && d0 != nil, "the earlier load succeeds")
+		lib.RootDir = root
+		verifLinks, verifReads = nil, nil
+		vCover("prior")
+	}
 	_, trueloc, data, err := lib.LoadSource(NewSourceContext("n", ctxLoc), loc)
 	vObserve("root", root)
 	vObserve("loc", loc)
